@@ -325,7 +325,20 @@ def loader_rules(chk):
                     if any(isinstance(c, ast.Compare) and isinstance(c.ops[0], ast.In) for c in g.ifs):
                         filt = True
     if not filt:
-        chk.undecided(r, name, "result is not built by filtering the topological order by membership", node=topo, aux=True)
+        # the sorted names include constraint names of plugins that are not installed: an unfiltered
+        # plugins[name] lookup raises KeyError for them instead of ignoring the constraint
+        unguarded = [
+            n
+            for n in ast.walk(fi.node)
+            if isinstance(n, (ast.GeneratorExp, ast.ListComp))
+            and any(x is topo for g in n.generators for x in ast.walk(g.iter))
+            and isinstance(n.elt, ast.Subscript)
+        ]
+        if unguarded:
+            chk.bad("O14.4", name, "the sorted names are looked up in the plugin mapping without filtering out names of plugins that are not installed: a constraint naming an absent plugin raises KeyError instead of being ignored", node=unguarded[0], stmt="result-unfiltered")
+            ok = False
+        else:
+            chk.undecided(r, name, "result is not built by filtering the topological order by membership", node=topo, aux=True)
     for kw in topo.keywords:
         if kw.arg == "sort" and not (isinstance(kw.value, ast.Constant) and kw.value.value is False):
             chk.notes.append("toposort_flatten sorts ties: plugin names must then be comparable")
